@@ -105,6 +105,29 @@ func countLiteralSlash(s string) int {
 	return n
 }
 
+// countKeptEscapes: escapes of bytes that are not unreserved (these must stay escapes: a reserved or excluded
+// character and its escape are different things, RFC 3986 sections 2.2 and 6.2.2.2).
+func countKeptEscapes(s string) int {
+	n := 0
+	for i := 0; i < len(s); {
+		if s[i] == '%' && i+2 < len(s) {
+			n += zz.IteInt(refUnreserved(refUnhex(s[i+1])<<4|refUnhex(s[i+2])), 0, 1)
+			i += 3
+			continue
+		}
+		i++
+	}
+	return n
+}
+
+func countEscapes(s string) int {
+	n := 0
+	for i := 0; i < len(s); i++ {
+		n += zz.IteInt(s[i] == '%', 1, 0)
+	}
+	return n
+}
+
 func HNormalize(n int) {
 	s := zz.String(n)
 	out, ok := NormalizeEscapedPath(s) // A1: a panic reaching the harness is a violation
@@ -134,6 +157,7 @@ func HNormalize(n int) {
 		i += 3
 	}
 	zz.Assert(countLiteralSlash(out) == countLiteralSlash(s), "A4b: literal and escaped slashes are not converted into each other")
+	zz.Assert(countEscapes(out) == countKeptEscapes(s), "A4c: every escape of a byte that is not unreserved stays an escape (only unreserved bytes are unescaped)")
 	out2, ok2 := NormalizeEscapedPath(out)
 	zz.Assert(zz.And(ok2, out2 == out), "A5: normalising twice equals normalising once")
 }
